@@ -46,7 +46,9 @@ def run_workers(prop, tier, vseed, n, W, cap, scratch, hashseed='0', indices=Non
     procs = []
     e = env.child_env({'NUMBA_NUM_THREADS': '16', 'PYTHONHASHSEED': hashseed})
     if indices is not None:
-        e['VERIF_INDICES'] = ','.join(map(str, indices))
+        f = os.path.join(scratch, '%s.indices' % tag)
+        open(f, 'w').write(' '.join(map(str, indices)))
+        e['VERIF_INDICES_FILE'] = f
         W = 1
     for k in range(W):
         out = os.path.join(scratch, '%s%d.jsonl' % (tag, k))
@@ -57,11 +59,20 @@ def run_workers(prop, tier, vseed, n, W, cap, scratch, hashseed='0', indices=Non
     return procs
 
 
+def missing_indices(failed, n, W):
+    """Indices a crashed / timed-out worker did not report (work is index-assigned: worker k owns k, k+W, ... in order)."""
+    miss = []
+    for k, cnt in failed:
+        miss.extend(range(k + cnt * W, n, W))
+    return sorted(miss)
+
+
 def collect(procs, deadline, on_rec):
     """Wait for the workers and stream their records into on_rec (nothing is kept in memory here)."""
     errors = []
     truncated = False
-    for p, out, log in procs:
+    failed = []
+    for widx, (p, out, log) in enumerate(procs):
         try:
             rc = p.wait(timeout=max(1, deadline - time.time()))
         except subprocess.TimeoutExpired:
@@ -70,6 +81,7 @@ def collect(procs, deadline, on_rec):
             rc = 'timeout'
         log.close()
         done = False
+        cnt = 0
         if os.path.exists(out):
             for line in open(out):
                 try:
@@ -81,15 +93,17 @@ def collect(procs, deadline, on_rec):
                 elif 'truncated_at' in r:
                     truncated = True
                 elif 'i' in r:
+                    cnt += 1
                     on_rec(r)
         if rc != 0 or not done:
+            failed.append((widx, cnt))
             tail = ''
             try:
                 tail = open(log.name).read()[-1500:]
             except Exception:
                 pass
             errors.append('worker %s exit=%s done=%s log tail: %s' % (os.path.basename(out), rc, done, tail))
-    return errors, truncated
+    return errors, truncated, failed
 
 
 class Agg:
@@ -178,9 +192,30 @@ def main(argv=None):
     det = run_workers(prop, tier, vseed, n, 1, cap, scratch, hashseed='4242', indices=list(range(ndet)), tag='det')
     deadline = time.time() + cap + 300
     agg = Agg(ndet, n)
-    errors, truncated = collect(procs, deadline, agg.add)
+    errors, truncated, failed = collect(procs, deadline, agg.add)
+    retries = 0
+    miss = missing_indices(failed, n, W) if failed else []
+    while miss and retries < 2 and not truncated:
+        # a worker process died or hit the per-run watchdog (seen once under heavy machine load): its unreported share is executed again in a
+        # fresh interpreter - same indices, same seeds, so the outcome of the check does not depend on it.  A reproducible hang fails again.
+        retries += 1
+        print('worker failure (%s); re-running %d unreported runs in a fresh interpreter (attempt %d)' % (
+            '; '.join(e.split(' log tail')[0] for e in errors[:3]), len(miss), retries))
+        sys.stdout.flush()
+        rp = run_workers(prop, tier, vseed, n, 1, cap, scratch, indices=miss, tag='retry%d' % retries)
+        errors, truncated2, failed2 = collect(rp, time.time() + cap + 300, agg.add)
+        truncated = truncated or truncated2
+        miss = miss[failed2[0][1]:] if failed2 else []
+    if failed and not miss and not truncated:
+        errors = [e for e in errors if not e.startswith('worker ')]
     drecs = []
-    derrors, _ = collect(det, deadline, drecs.append)
+    derrors, _, dfailed = collect(det, deadline, drecs.append)
+    if dfailed:
+        # the determinism re-check is a self-test of the harness: re-run it once before calling it an error
+        det2 = run_workers(prop, tier, vseed, n, 1, cap, scratch, hashseed='4242', indices=list(range(ndet)), tag='det2')
+        drecs = []
+        derrors, _, dfailed = collect(det2, time.time() + cap + 300, drecs.append)
+        retries += 1
     errors += derrors + agg.errors
     # determinism self-check: same seeds in another fresh interpreter under another hash seed
     det_checked = 0
@@ -274,6 +309,7 @@ def main(argv=None):
             'degraded': dict(degraded),
             'counts': dict(extras),
             'determinism_recheck': {'runs_recomputed_in_second_interpreter_other_hashseed': det_checked},
+            'worker_retries': retries,
             'real_vs_stub': REAL_STUB,
             'workers': W, 'tree_hash': env.tree_hash(), 'repo': env.REPO,
             'known_findings_observed': dict(known_hits),
